@@ -14,27 +14,54 @@ pub struct Case {
     pub method: usize,
     pub start: String,
     pub len: u32,
+    /// history diversity: a sibling site that differs only in its GMT offset is interleaved date by date
+    #[serde(default)]
+    pub alt_gmt: Option<X>,
 }
 
 const REACH: i32 = 400;
 
 pub fn check(ctx: &Ctx, st: &mut Stats, c: &Case) {
-    let l = c.site.loc();
-    let mut p0 = Params::new(METHODS[c.method]);
+    match c.alt_gmt {
+        None => check_sites(ctx, st, c, &[c.site]),
+        Some(g) => {
+            let mut b = c.site;
+            b.gmt = g;
+            check_sites(ctx, st, c, &[c.site, b])
+        }
+    }
+}
+
+fn check_sites(ctx: &Ctx, st: &mut Stats, c0: &Case, sites: &[Site]) {
+    let start = ce(s2d(&c0.start));
+    let mut p0 = Params::new(METHODS[c0.method]);
     p0.round_seconds = RoundSeconds::None;
     p0.extreme_latitude_method = ExtremeLatitudeMethod::None;
-    let start = ce(s2d(&c.start));
     let lo = start - REACH;
-    let n = c.len as i32 + 2 * REACH;
-    // reference table: conventional result of every date in reach (policy None)
-    let mut table: Vec<Option<Res>> = Vec::with_capacity(n as usize);
-    for i in 0..n {
-        table.push(call(st, &p0, l, from_ce(lo + i), None).ok());
+    let n = c0.len as i32 + 2 * REACH;
+    // reference tables: conventional result of every date in reach (policy None), one per site
+    let mut tables: Vec<Vec<Option<Res>>> = vec![];
+    for s in sites {
+        let mut t = Vec::with_capacity(n as usize);
+        for i in 0..n {
+            t.push(call(st, &p0, s.loc(), from_ce(lo + i), None).ok());
+        }
+        tables.push(t);
     }
+    for k in 0..c0.len as i32 {
+        for (si, s) in sites.iter().enumerate() {
+            let c = Case { site: *s, method: c0.method, start: c0.start.clone(), len: c0.len, alt_gmt: None };
+            check_date(ctx, st, &c, &p0, &tables[si], start, k);
+        }
+    }
+}
+
+fn check_date(ctx: &Ctx, st: &mut Stats, c: &Case, p0: &Params, table: &[Option<Res>], start: i32, k: i32) {
+    let l = c.site.loc();
     let good = |i: i32| -> bool {
         matches!(&table[i as usize], Some(r) if r[&Prayer::Fajr].is_ok() && r[&Prayer::Isha].is_ok())
     };
-    for k in 0..c.len as i32 {
+    {
         let idx = REACH + k;
         let date = from_ce(start + k);
         let one = Case {
@@ -42,11 +69,12 @@ pub fn check(ctx: &Ctx, st: &mut Stats, c: &Case) {
             method: c.method,
             start: d2s(date),
             len: 1,
+            alt_gmt: None,
         };
         st.begin_case(ctx, &one);
         let Some(base) = table[idx as usize].clone() else {
             st.count("panicked_cannot_decide(see C07)");
-            continue;
+            return;
         };
         let needed = base[&Prayer::Fajr].is_err() || base[&Prayer::Isha].is_err();
         // reference good day: outward, earlier first
@@ -61,7 +89,7 @@ pub fn check(ctx: &Ctx, st: &mut Stats, c: &Case) {
         }
         let Some(gofs) = g else {
             st.count("no_good_day_within_400_days(undecided)");
-            continue;
+            return;
         };
         let gres = table[(idx + gofs) as usize].clone().unwrap();
         for (pol, all) in [("NearestGoodDayFajrIshaInvalid", false), ("NearestGoodDayAllPrayersAlways", true)] {
@@ -72,8 +100,12 @@ pub fn check(ctx: &Ctx, st: &mut Stats, c: &Case) {
             p.extreme_latitude_method = policy(pol, None);
             let res = match call(st, &p, l, date, None) {
                 Ok(r) => r,
-                Err(_) => {
-                    st.count("panicked_cannot_decide(see C07)");
+                Err(pm) => {
+                    if needed {
+                        st.violate("not_reported", &one, json!({"policy": pol, "why": "the call panicked instead of reporting Fajr/Isha", "panic": pm, "south": c.site.lat.0 < 0.0, "month": date.month()}));
+                    } else {
+                        st.count("panicked_cannot_decide(see C07)");
+                    }
                     continue;
                 }
             };
@@ -128,7 +160,7 @@ fn gen_site(r: &mut Rng) -> Site {
 }
 
 pub fn run(ctx: &Ctx, st: &mut Stats) {
-    let nsy = ((ctx.pick(64, 3200) as f64 * ctx.scale).ceil() as u64).max(2);
+    let nsy = ((ctx.pick(512, 24_000) as f64 * ctx.scale).ceil() as u64).max(2);
     for i in 0..nsy {
         if !ctx.mine(i) {
             continue;
@@ -148,16 +180,64 @@ pub fn run(ctx: &Ctx, st: &mut Stats) {
         // 1600-01-01 and 2399-12-31 need reach outside the property's date window; the library accepts those dates
         let method = *r.pick(&ANGLE_METHODS);
         let len = crate::oracle::days_in_year(year) as u32;
+        // a sibling site one hour of GMT offset away is interleaved date by date on a third of the site-years
+        let alt = if i % 3 == 0 {
+            let g = site.gmt.0 + if site.gmt.0 + 1.0 <= 12.0 { 1.0 } else { -1.0 };
+            Some(X(g))
+        } else {
+            None
+        };
         let c = Case {
             site,
             method,
             start: d2s(ymd(year, 1, 1)),
             len,
+            alt_gmt: alt,
         };
         st.sample(|| json!({"site_year": c, "note": "every day of the year is checked under both nearest-good-day policies"}));
         check(ctx, st, &c);
         st.count("site_years");
         st.count(if site.lat.0 > 0.0 { "site_years.north" } else { "site_years.south" });
+    }
+    // boundary seeking: bisect the latitude (down to adjacent f64 values) so that a chosen date is the LAST day on
+    // which Fajr still (just) exists — a good day with grazing twilight — and check the week around it: the bad
+    // days next to it must take exactly that day's values
+    let nb = ctx.quota(320, 24_000);
+    let mut rb = Rng::new(ctx.seed, 902, ctx.shard);
+    for _ in 0..nb {
+        let north = rb.chance(0.5);
+        let y = rb.int(1601, 2398) as i32;
+        // towards the local summer solstice twilight disappears; after it, it comes back
+        let towards = rb.chance(0.5);
+        let (m, d) = match (north, towards) {
+            (true, true) => (rb.int(4, 5), rb.int(1, 28)),
+            (true, false) => (rb.int(7, 8), rb.int(5, 28)),
+            (false, true) => (rb.int(10, 11), rb.int(1, 28)),
+            (false, false) => (rb.int(1, 2), rb.int(5, 28)),
+        };
+        let date = ymd(y, m as u32, d as u32);
+        let lon = gen::any_lon(&mut rb);
+        let method = *rb.pick(&ANGLE_METHODS);
+        let gmt = gen::gmt_near(&mut rb, lon, 1.0);
+        let mut p0 = Params::new(METHODS[method]);
+        p0.round_seconds = RoundSeconds::None;
+        p0.extreme_latitude_method = ExtremeLatitudeMethod::None;
+        let sgn = if north { 1.0 } else { -1.0 };
+        let exists = |st: &mut Stats, la: f64| -> bool {
+            call(st, &p0, loc(la, lon, 0.0, gmt), date, None).map(|r| r[&Prayer::Fajr].is_ok() && r[&Prayer::Isha].is_ok()).unwrap_or(false)
+        };
+        if !exists(st, 47.0 * sgn) || exists(st, 64.0 * sgn) {
+            st.count("boundary_windows.no_transition_in_48_64");
+            continue;
+        }
+        let (a, _b) = super::bisect(47.0 * sgn, 64.0 * sgn, |la| exists(st, la));
+        if a.abs() < 48.0 {
+            st.count("boundary_windows.transition_below_48");
+            continue;
+        }
+        let c = Case { site: Site::new(a, lon, 0.0, gmt), method, start: d2s(from_ce(ce(date) - 3)), len: 7, alt_gmt: None };
+        check(ctx, st, &c);
+        st.count("boundary_windows(grazing good day, week around it)");
     }
     st.extra.insert("rule".into(), json!("every day of whole years at sites 48<=|lat|<=64 in both hemispheres, angle methods; reference = outward search (earlier first) over the None-policy results of the neighbouring 400 days; non-trivial = dates on which Fajr or Isha is conventionally missing (fallback needed); distinct (site, method, date) by hash"));
 }
